@@ -571,6 +571,10 @@ func sxgFile(t *rapid.T) ([]byte, []byte) {
 		s.PayloadLen %= 2000
 	}
 	s.Date, s.Expires = 1_700_000_000-100, 1_700_000_000+3600
+	if rapid.IntRange(0, 2).Draw(t, "anystatus") == 0 {
+		// any status, with and without explicit freshness: the verifier's policy code is a parser too
+		s.Status = rapid.SampledFrom([]int{100, 199, 200, 204, 226, 299, 300, 308, 399, 400, 418, 451, 499, 500, 501, 502, 503, 504, 505, 508, 510, 511, 512, 599, 600, 999, 0, 1000, -1}).Draw(t, "status")
+	}
 	e, _, err := sxgkit.Build(s)
 	if err != nil {
 		panic(err)
